@@ -1,6 +1,7 @@
 from __future__ import absolute_import
 import weakref
-from fontTools.ufoLib import UFOFileStructure
+from fontTools.ufoLib import UFOFileStructure, UFOFormatVersion
+from fontTools.pens.pointPen import AbstractPointPen
 from fontTools.misc.arrayTools import unionRect
 from defcon.objects.base import BaseObject
 from defcon.objects.glyph import Glyph
@@ -8,6 +9,32 @@ from defcon.objects.lib import Lib
 from defcon.objects.uniData import UnicodeData
 from defcon.objects.color import Color
 from functools import partial
+
+
+class _IdentifierStrippingPointPen(AbstractPointPen):
+
+    """
+    Pass everything except identifiers on to **outPen**.
+    """
+
+    def __init__(self, outPen):
+        self._outPen = outPen
+
+    def beginPath(self, identifier=None, **kwargs):
+        self._outPen.beginPath(**kwargs)
+
+    def endPath(self):
+        self._outPen.endPath()
+
+    def addPoint(self, pt, segmentType=None, smooth=False, name=None, identifier=None, **kwargs):
+        self._outPen.addPoint(pt, segmentType=segmentType, smooth=smooth, name=name, **kwargs)
+
+    def addComponent(self, baseGlyphName, transformation, identifier=None, **kwargs):
+        self._outPen.addComponent(baseGlyphName, transformation, **kwargs)
+
+
+def _drawPointsWithoutIdentifiers(glyph, pointPen):
+    glyph.drawPoints(_IdentifierStrippingPointPen(pointPen))
 
 
 class Layer(BaseObject):
@@ -580,7 +607,12 @@ class Layer(BaseObject):
         Subclasses may override this method to implement custom saving behavior.
         """
         if glyph.dirty or saveAs:
-            glyphSet.writeGlyph(glyph.name, glyph, glyph.drawPoints)
+            drawPoints = glyph.drawPoints
+            if glyphSet.ufoFormatVersionTuple < UFOFormatVersion.FORMAT_3_0:
+                # GLIF 1 has no identifiers. ufoLib writes the ones it is
+                # given anyway and then refuses to read the file it wrote.
+                drawPoints = partial(_drawPointsWithoutIdentifiers, glyph)
+            glyphSet.writeGlyph(glyph.name, glyph, drawPoints)
             self._stampGlyphDataState(glyph, glyphSet=glyphSet)
             glyph.dirty = False
 
